@@ -23,6 +23,7 @@ RELATED = {
 }
 ALL = '--all' in sys.argv
 OWN_FIRST = '--own-first' in sys.argv
+OWN_ONLY = '--own-only' in sys.argv     # only the changed property's check
 ROOT = os.environ.get('SWEEP_ROOT', '/tmp/sweep')
 SNAP = ROOT + '/verif'
 
@@ -59,6 +60,13 @@ def one(args):
         env = dict(os.environ, SA_REPO=wt, SA_NOWRITE='1')
         props = related(patch)
         own = None
+        if OWN_ONLY:
+            try:
+                own = json.load(open(os.path.join(
+                    os.path.dirname(patch), 'meta.json')))['property']
+                props = [own]
+            except (OSError, ValueError, KeyError):
+                pass
         if OWN_FIRST:
             # the check of the property the change was written against runs
             # first; the others only if it does not report the change
